@@ -638,6 +638,8 @@ class Equiv1Macro(Macro):
     
     def eval(self, args, prevs):
         pt = prevs[0]
+        if not pt.prop.is_equals():
+            raise VeriTException("equiv1", "premise should be an equivalence")
         p1, p2 = pt.prop.args
         if Not(p1) == args[0] and p2 == args[1]:
             return Thm(Or(*args), pt.hyps)
@@ -661,6 +663,8 @@ class Equiv1Macro(Macro):
     
     def eval(self, args, prevs):
         pt = prevs[0]
+        if not pt.prop.is_equals():
+            raise VeriTException("equiv2", "premise should be an equivalence")
         p1, p2 = pt.prop.args
         if p1 == args[0] and Not(p2) == args[1]:
             return Thm(Or(*args), pt.hyps)
